@@ -80,6 +80,7 @@ func runClosest(o *Out, _ *rand.Rand, thorough bool) {
 	for ci := 0; ci < n; ci++ {
 		c := genClosestCase(o.CaseRng(ci))
 		if replayFile != "" {
+			c = closestCase{} // a replay is the whole case: nothing of the generated one may shine through fields the file omits
 			loadReplayInto(replayFile, &c)
 		}
 		if !o.BeginCase(ci, c) {
